@@ -43,9 +43,9 @@ def _steady(m):
     return lv, ch
 
 
-def _setup(ir, zm, nsim, n_ant, deviation, values=None, zero_shocks=False):
+def _setup(ir, zm, nsim, n_ant, deviation, values=None, zero_shocks=False, model=None, ant_ks=None):
     """model, databox, span: every variable gets initial conditions (2 lags), every shock a value in every simulated period"""
-    m = fo.build_model(ir, zm)
+    m = fo.build_model(ir, zm) if model is None else model
     lv, ch = _steady(m)
     start = ir.qq(2020, 1)
     span = start >> (start + nsim - 1)
@@ -69,7 +69,7 @@ def _setup(ir, zm, nsim, n_ant, deviation, values=None, zero_shocks=False):
     for si, s in enumerate(zm.tshocks):
         vals = []
         for k in range(nsim):
-            if si == 0 and k < n_ant:
+            if si == 0 and (k < n_ant if ant_ks is None else k in ant_ks):
                 vals.append(val("ant_" + s, k, 0.125))
                 ant_cells.add(("ant_" + s, k))
             else:
@@ -206,6 +206,30 @@ def equations_hold(run, ir, zm, deviation, nsim, n_ant):
     if "ok" not in verdicts:
         run.unknown(key, "no path with a symbolic residual")
         return
+    run.ok(key)
+
+
+def equations_hold_history(run, ir, zm, deviation, nsim, horizons):
+    """a HISTORY of simulations on ONE solved model object (growing and shrinking anticipated-shock horizons): state kept
+    between simulations (cached forward expansions) must not change any of them"""
+    key = f"history:{zm.name}:dev={deviation}:horizons={horizons}"
+    finding = f"first_order:history:{zm.name}"
+    m = fo.build_model(ir, zm)
+    maxlead = 2 if "lead2" in zm.tags else 1
+    checked = list(range(0, nsim - maxlead))
+    for step, ant_ks in enumerate(horizons):
+        case = dict(kind="history", model=zm.name, deviation=deviation, nsim=nsim, horizons=[list(h) for h in horizons], step=step)
+        _m, db, span, ant_cells, steady = _setup(ir, zm, nsim, 0, deviation, model=m, ant_ks=set(ant_ks))
+        with fo.FirstOrderLift(ir, _lift_rows(zm), lift_where=_where(zm, ant_cells)) as L, S.Path() as path:
+            m.simulate(db, span, method="first_order", deviation=deviation)
+        cap = L.caps[0]
+        claims = _residual_claims(zm, cap, nsim, checked, deviation, steady)
+        v = _decide_path(run, f"{key}:step{step}", zm, cap, path, claims, case, finding)
+        if v == "violated":
+            return
+        if v != "ok":
+            run.unknown(key, f"step {step}: {v}")
+            return
     run.ok(key)
 
 
@@ -394,7 +418,7 @@ def main(run):
         "reached through Simultaneous.from_string/steady/solve/simulate(method='first_order')",
     ]
     run.bounds["structures"] = ("zoo of 5 linear models (<=3 transition variables, lags<=2, leads<=2, measurement block, constants, unit root); "
-                                "deviation in {True, False}; simulated span 5..6 periods, equations checked where all leads lie inside the span; "
+                                "deviation in {True, False}; histories of 3 simulations on one model object with growing/shrinking anticipated horizons; simulated span 5..6 periods, equations checked where all leads lie inside the span; "
                                 "anticipated shocks symbolic in the first 2 periods of the first shock (concolic paths over zero/non-zero), "
                                 "all unanticipated shocks, measurement shocks and initial conditions symbolic")
     run.bounds["values"] = "every lifted cell in [-1, 1]; residual tolerance 1e-9 (solution matrices are float-born); exact rational arithmetic in the solver"
@@ -422,6 +446,14 @@ def main(run):
                 run.unknown(f"equations:{zm.name}:dev={deviation}", exc)
             except Exception as exc:
                 run.error(f"equations:{zm.name}:dev={deviation}", exc)
+        if zm.tshocks and (not quick or zm.name in ("nk3", "pc_const")):
+            for hz in (((1,), (0, 3), (2,)), ((0,), (0, 1, 2, 3), (1, 3))):
+                try:
+                    equations_hold_history(run, ir, zm, True, 6, hz)
+                except S.SymbolicBranchError as exc:
+                    run.unknown(f"history:{zm.name}:{hz}", exc)
+                except Exception as exc:
+                    run.error(f"history:{zm.name}:{hz}", exc)
         if "unit_root" not in zm.tags:
             try:
                 level_is_steady_plus_deviation(run, ir, zm, 3 if quick else 5)
@@ -450,9 +482,22 @@ def replay(case):
         n_unst = sum(1 for s in st if "UNSTABLE" in str(s))
         n_unit = sum(1 for s in st if "UNIT" in str(s))
         return (n_unst != zm.forward or n_unit != zm.unit_roots), f"{n_unst} unstable, {n_unit} unit"
-    if kind == "equations":
+    if kind == "history":
+        # replay the same history of simulations on one model object; evaluate the oracle on the failing step
+        deviation, nsim = case["deviation"], case["nsim"]
+        m = fo.build_model(ir, zm)
+        for step, ant_ks in enumerate(case["horizons"]):
+            _m, db, span, ant_cells, (lv, ch) = _setup(ir, zm, nsim, 0, deviation, values=vals if step == case["step"] else None, model=m, ant_ks=set(ant_ks))
+            if step < case["step"]:
+                m.simulate(db, span, method="first_order", deviation=deviation)
+                continue
+            break
+        case = dict(case, kind="equations", n_ant=0)
+        kind = "equations_on_model"
+    if kind in ("equations", "equations_on_model"):
         deviation, nsim, n_ant = case["deviation"], case["nsim"], case["n_ant"]
-        m, db, span, ant_cells, (lv, ch) = _setup(ir, zm, nsim, n_ant, deviation, values=vals)
+        if kind == "equations":
+            m, db, span, ant_cells, (lv, ch) = _setup(ir, zm, nsim, n_ant, deviation, values=vals)
         start = span.start
         maxlead = 2 if "lead2" in zm.tags else 1
         checked = list(range(0, nsim - maxlead))
